@@ -227,15 +227,12 @@ func (x *Exec) applyContract(st *State, ct *Contract, sig *types.Signature, name
 		x.trusted[shortPkg(ct.Key)] = true
 	}
 	// user assertions placed before this call
-	if fr.contract != nil {
-		for i, a := range fr.contract.Asserts {
-			if a.Callee == cn.name && a.Ord == cn.ord {
-				ctx := x.specCtx(st, fr)
-				g := x.evalBool(ctx, a.E)
-				x.check(st, fmt.Sprintf("assert:%s#%d.%d", cn.name, cn.ord, i+1), "", nil, g, a.E.String())
-			}
+	x.userAsserts(st, fr, cn, false)
+	defer func() {
+		if !st.dead {
+			x.userAsserts(st, fr, cn, true)
 		}
-	}
+	}()
 	pre := st.snapshot()
 	nm := map[string]Value{}
 	for i, n := range names {
@@ -692,7 +689,9 @@ func (x *Exec) havocLoc(st *State, l Loc) {
 func (x *Exec) dryRunLoop(st *State, loop *Loop, spec *LoopSpec, phis []*ssa.Phi) *recorder {
 	fr := st.frameTop()
 	bad := map[*ssa.Phi]bool{}
-	for iter := 0; iter < 4; iter++ {
+	// written: heaps the loop may write (found by a first, fully pessimistic pass); nil = havoc all
+	var written map[string]bool
+	for iter := 0; iter < 6; iter++ {
 		s2 := st.fork()
 		rec := &recorder{targets: map[string]map[*Term]bool{}, whole: map[string]bool{}, phiBad: bad, nonpos: map[string]map[*Term]bool{}}
 		s2.rec = nil
@@ -716,9 +715,13 @@ func (x *Exec) dryRunLoop(st *State, loop *Loop, spec *LoopSpec, phis []*ssa.Phi
 		}
 		sort.Strings(names)
 		for _, h := range names {
-			s2.heaps[h] = x.b.Fresh(h+"@dry", x.heapSorts[h])
+			if written == nil || written[h] {
+				s2.heaps[h] = x.b.Fresh(h+"@dry", x.heapSorts[h])
+			}
 		}
-		s2.heapsAllHavoc(x)
+		if written == nil {
+			s2.heapsAllHavoc(x)
+		}
 		dryEpoch := s2.epoch
 		ctx := x.specCtx(s2, f2)
 		for _, inv := range spec.Invariants {
@@ -741,6 +744,17 @@ func (x *Exec) dryRunLoop(st *State, loop *Loop, spec *LoopSpec, phis []*ssa.Phi
 		}
 		if changed {
 			continue // some slice phi changes its object: redo pessimistically
+		}
+		if written == nil && !rec.all {
+			// second pass: only the heaps that are written at all are unknown at the loop head
+			written = map[string]bool{}
+			for h := range rec.targets {
+				written[h] = true
+			}
+			for h := range rec.whole {
+				written[h] = true
+			}
+			continue
 		}
 		// classify targets
 		out := &recorder{targets: map[string]map[*Term]bool{}, whole: map[string]bool{}, all: rec.all, phiBad: bad, negonly: map[string]bool{}}
@@ -840,5 +854,50 @@ func (x *Exec) pinResult(f *Term, sym *Term) {
 			x.b.symLo[sym], x.b.symHi[sym] = lit.Val, lit.Val
 			x.b.bcache = map[*Term][2]*big.Int{}
 		}
+	}
+}
+
+// userAsserts handles "assert/apply before|after call f#k" clauses of the enclosing contract.
+func (x *Exec) userAsserts(st *State, fr *Frame, cn callName, after bool) {
+	if fr.contract == nil {
+		return
+	}
+	for i, a := range fr.contract.Asserts {
+		if a.Callee != cn.name || a.Ord != cn.ord || a.After != after {
+			continue
+		}
+		ctx := x.specCtx(st, fr)
+		if a.Lemma != "" {
+			lm := x.db.lemma(a.Lemma)
+			if lm == nil {
+				specFail("apply: unknown lemma %s", a.Lemma)
+			}
+			if len(a.Args) != len(lm.Vars) {
+				specFail("apply %s: %d arguments for %d variables", a.Lemma, len(a.Args), len(lm.Vars))
+			}
+			vals := map[string]*Term{}
+			for j, v := range lm.Vars {
+				n, _, _ := strings.Cut(v, ":")
+				t, ok := x.eval(ctx, a.Args[j]).(*Term)
+				if !ok {
+					specFail("apply %s: argument %d is not a term", a.Lemma, j+1)
+				}
+				vals[n] = t
+			}
+			inst := x.lemmaTerm(lm, func(n, s string) *Term {
+				if vals[n].Sort != s {
+					specFail("apply %s: argument %s has sort %s, want %s", a.Lemma, n, vals[n].Sort, s)
+				}
+				return vals[n]
+			})
+			if lm.Induct != "" {
+				inst = x.b.Implies(x.b.Le(x.b.Int(0), vals[lm.Induct]), inst)
+			}
+			st.assume(inst)
+			x.usedLemmas[a.Lemma] = true
+			continue
+		}
+		g := x.evalBool(ctx, a.E)
+		x.check(st, fmt.Sprintf("assert:%s#%d.%d", cn.name, cn.ord, i+1), "", nil, g, a.E.String())
 	}
 }
